@@ -246,6 +246,7 @@ func (h *hist) directedOrdered(idx int) {
 	h.recv1(b, false) // gap
 	h.recv1(a, false)
 	h.recv1(b, false)
+	h.recv1(a, false) // replay of a delivered packet: must not reach the application again
 	if idx%2 == 0 {
 		h.ack1(b, false) // out of order
 		h.ack1(a, false)
